@@ -83,6 +83,12 @@ def check_helpers(ctx, oid="C03.4"):
                 "pow_mod_p accepts a base outside [0, p-1]")
 
 
+def _merge(a, b):
+    d = dict(a)
+    d.update(b)
+    return d
+
+
 def check_point_add(ctx, oid_split="C03.3", oid_formula="C03.4"):
     R = ctx.R
     fi = ctx.fn(PADD)
@@ -113,44 +119,72 @@ def check_point_add(ctx, oid_split="C03.3", oid_formula="C03.4"):
                         return True
         return False
 
-    id1 = [e for e in rets if tm.veq(e.value, p2) and has(e, isn1)]
-    id2 = [e for e in rets if tm.veq(e.value, p1) and has(e, isn2)]
-    R.check(oid_split, "DECISION-TABLE", fi, "inf + Q = Q", bool(id1), "no branch returns p2 when p1 is the identity")
-    R.check(oid_split, "DECISION-TABLE", fi, "P + inf = P", bool(id2), "no branch returns p1 when p2 is the identity")
-    inv = [e for e in rets if e.value is None and eqneg_in(e, True)]
-    R.check(oid_split, "DECISION-TABLE", fi, "P + (-P) = inf", bool(inv),
-            "no branch returns the identity when p1 == -p2", example="adding a point to its negation")
-    formula = [e for e in rets if isinstance(e.value, (list, tuple)) and len(e.value) == 2]
-    tang = [e for e in formula if has(e, eq12)]
-    chord = [e for e in formula if not has(e, eq12)]
-    R.check(oid_split, "DECISION-TABLE", fi, "doubling branch guarded by p1 == p2", len(tang) == 1, "expected one tangent branch under p1 == p2")
-    R.check(oid_split, "DECISION-TABLE", fi, "one chord branch", len(chord) == 1, "expected exactly one generic chord branch")
-    for e in chord:
-        ok = has(e, tm.lnot(eq12)) and eqneg_in(e, False) and has(e, tm.lnot(isn1)) and has(e, tm.lnot(isn2))
-        R.check(oid_split, "DOM", fi, "chord branch dominated by p1 != p2 and p1 != -p2 and both finite", ok,
-                "the chord formula can be reached with p1 == p2, p1 == -p2 or an identity operand (zero denominator / "
-                "coordinate access on None)", example="P + (-P), or P + P through the chord formula")
-        xr, yr = e.value
+    # the case split is decided by evaluating the function once per case, with the case's predicates assumed -- any
+    # arrangement of the branches (if/elif chain, guard clauses, shared tail) gives the same five outcomes
+    negterm = None
+    for e in s.exits:
+        for g in list(e.guard) + list(e.facts):
+            for t in tm.subterms(g):
+                if isinstance(t, T) and t.op == "cmp" and t.args[0] in ("eq", "ne"):
+                    a_, b_ = t.args[1], t.args[2]
+                    for u, w in ((a_, b_), (b_, a_)):
+                        uw = rules.unfz(w)
+                        if isinstance(uw, (list, tuple)) and len(uw) == 2 and ((tm.veq(u, p1) and tm.veq(uw[0], x2) and polynf(uw[1], Pp) == polynf(tm.mul([-1, y2]), Pp)) or
+                                                                                 (tm.veq(u, p2) and tm.veq(uw[0], x1) and polynf(uw[1], Pp) == polynf(tm.mul([-1, y1]), Pp))):
+                            negterm = t if t.args[0] == "eq" else tm.lnot(t)
+
+    def case(assume):
+        ev.assumptions = {}
+        for k, v in assume.items():
+            ev.assumptions[k] = v
+            ev.assumptions[tm.lnot(k)] = not v
+        out = rules.decided_outcome(ev.run(fi, use_defaults=True))  # operand range checks are refusals outside the case split
+        ev.assumptions = {}
+        return out
+
+    k1, v1 = case({isn1: True})
+    R.check(oid_split, "DECISION-TABLE", fi, "inf + Q = Q", k1 == "return" and tm.veq(v1, p2), "with p1 the identity point_add gives %s %s, not p2" % (k1, tm.show(v1)[:80]))
+    k2, v2 = case({isn1: False, isn2: True})
+    R.check(oid_split, "DECISION-TABLE", fi, "P + inf = P", k2 == "return" and tm.veq(v2, p1), "with p2 the identity point_add gives %s %s, not p1" % (k2, tm.show(v2)[:80]))
+    R.check(oid_split, "DECISION-TABLE", fi, "P + (-P) = inf: the function tests p1 == -p2", negterm is not None,
+            "no branch tests p1 == -p2, so P + (-P) goes through the chord formula with a zero denominator", example="adding a point to its negation")
+    base = {isn1: False, isn2: False}
+    if negterm is not None:
+        k3, v3 = case(_merge(base, {eq12: False, negterm: True}))
+        R.check(oid_split, "DECISION-TABLE", fi, "P + (-P) = inf", k3 == "return" and v3 is None,
+                "with p1 == -p2 point_add gives %s %s, not the identity" % (k3, tm.show(v3)[:80]), example="adding a point to its negation")
+    kd, vd = case(_merge(base, {eq12: True, negterm: False} if negterm is not None else {eq12: True}))  # P == -P only for y = 0, which is not on the curve
+    R.check(oid_split, "DECISION-TABLE", fi, "doubling case p1 == p2 returns a point", kd == "return" and isinstance(vd, (list, tuple)) and len(vd) == 2,
+            "with p1 == p2 point_add gives %s %s" % (kd, tm.show(vd)[:80]))
+    kc, vc = case(_merge(base, {eq12: False, negterm: False} if negterm is not None else {eq12: False}))
+    R.check(oid_split, "DECISION-TABLE", fi, "generic case returns a point", kc == "return" and isinstance(vc, (list, tuple)) and len(vc) == 2,
+            "with distinct, non-inverse, finite operands point_add gives %s %s" % (kc, tm.show(vc)[:80]))
+    # the chord formula is reachable only in the generic case: with p1 == p2 assumed the result must be the tangent formula
+    # (not the chord one, whose denominator would be zero), checked below by the formulas themselves
+    if kc == "return" and isinstance(vc, (list, tuple)) and len(vc) == 2:
+        xr, yr = vc
         lam = tm.mul([tm.sub(y2, y1), T("powmod", (tm.mod(tm.sub(x2, x1), Pp), Pp - 2, Pp), tm.INT)])
         wx = tm.add([tm.mul([lam, lam]), tm.mul([-1, x1]), tm.mul([-1, x2])])
         R.check(oid_formula, "TERM-EQ", fi, "chord x3 = l^2 - x1 - x2", polynf(xr, Pp) == polynf(wx, Pp), "chord x-coordinate formula differs")
         wy = tm.add([tm.mul([lam, tm.sub(x1, wx)]), tm.mul([-1, y1])])
         R.check(oid_formula, "TERM-EQ", fi, "chord y3 = l(x1 - x3) - y1", polynf(yr, Pp) == polynf(wy, Pp), "chord y-coordinate formula differs")
         for v in (xr, yr):
-            R.check(oid_formula, "INTERVAL", fi, "chord result coordinate within [0, p-1]", ival.subset(ival.ivals(v, rules.all_facts(e)), 0, Pp - 1),
+            R.check(oid_formula, "INTERVAL", fi, "chord result coordinate within [0, p-1]", ival.subset(ival.ivals(v, []), 0, Pp - 1),
                     "a result coordinate can leave [0, p-1]")
-    for e in tang:
-        xr, yr = e.value
+    if kd == "return" and isinstance(vd, (list, tuple)) and len(vd) == 2:
+        xr, yr = vd
+        # under p1 == p2 the coordinates of p2 are those of p1
+        def same(t):
+            if isinstance(t, T) and t.op == "proj" and tm.veq(t.args[0], p2):
+                return T("proj", (p1, t.args[1]))
+            return None
+        xr, yr = tm.subst(xr, same), tm.subst(yr, same)
         lam = tm.mul([tm.add([tm.mul([3, x1, x1]), 0]), T("powmod", (tm.mod(tm.mul([2, y1]), Pp), Pp - 2, Pp), tm.INT)])
         wx = tm.add([tm.mul([lam, lam]), tm.mul([-2, x1])])
-        R.check(oid_formula, "TERM-EQ", fi, "tangent x3 = l^2 - 2x", polynf(xr, Pp) == polynf(wx, Pp), "doubling x-coordinate formula differs")
+        R.check(oid_formula, "TERM-EQ", fi, "tangent x3 = l^2 - 2x", polynf(xr, Pp) == polynf(wx, Pp), "doubling x-coordinate formula differs (or the chord formula is used for p1 == p2)",
+                example="P + P")
         wy = tm.add([tm.mul([lam, tm.sub(x1, wx)]), tm.mul([-1, y1])])
         R.check(oid_formula, "TERM-EQ", fi, "tangent y3 = l(x - x3) - y", polynf(yr, Pp) == polynf(wy, Pp), "doubling y-coordinate formula differs")
-    # order of exits: identity guards before any coordinate access
-    first_two = [e for e in s.exits[:2] if e.kind == "return"]
-    R.check(oid_split, "DOM", fi, "identity guards come first", len(first_two) == 2 and bool(id1) and bool(id2) and
-            s.exits.index(id1[0]) < 2 and s.exits.index(id2[0]) < 2,
-            "a coordinate of an operand is accessed before both identity guards")
     # negate / on-curve
     fn = ctx.fn("bits.ecmath.point_negate")
     sn = ev.run(fn, use_defaults=True)
